@@ -135,7 +135,7 @@ CLAIMS["C26"] = dict(
     technique="bounded symbolic execution of the integer codec leaf kernels (byte-aligned packing; FastLanes bit-packing kernels, see C28) with Kani+CBMC",
     text=("Decides losslessness for the integer leaf codecs that are pure bit/byte arithmetic: BytepackedIntegerEncoder/ByteUnpacker round-trip for every "
           "max_value and values (every byte width and width boundary) and the FastLanes bit-packing kernels used by the bit-packing encodings (all 1024 lanes "
-          "symbolic, per (type,width) pair; shared with C28). RLE, byte-stream-split, dictionary, FSST, packed-struct, general (LZ4/ZSTD) compression and the "
+          "symbolic, per (type,width) pair; shared with C28), and that the byte-stream-split chunk size respects the documented mini-block limits. RLE, the byte-stream-split transposition, dictionary, FSST, packed-struct, general (LZ4/ZSTD) compression and the "
           "mini-block chunking limits sit on LanceBuffer/Arrow/bytemuck/C libraries and are NOT claimed."),
     note="Claim restricted to the named kernels.",
 )
